@@ -39,6 +39,7 @@ PROFILE = {
     "n": (3, 10),
     "locations": ["package", "package", "package", "main", "notebook"],
     "p_restart": 0.7,
+    "p_proc2": 0.35,
     "stores": ("local", "local", "local+cache", "memory"),
 }
 
